@@ -227,6 +227,10 @@ class Association(object):
         
         for ref_key, primary_key in zip(self.source_keys, self.target_keys):
             prop = getattr(source_class.clazz, ref_key, None)
+            if not isinstance(prop, property):
+                # e.g. a method that python classes come with, such as mro
+                prop = None
+            
             prop = property(partial(fget, ref_name=primary_key, alt_prop=prop), 
                             partial(fset, name=ref_key, ref_name=primary_key, alt_prop=prop))
             setattr(source_class.clazz, ref_key, prop)
